@@ -558,6 +558,25 @@ pub fn run(desc: &Value, ctx: &Ctx) -> CaseOut {
                             if t % 2 == 0 {
                                 directory_probe(&container, fx.n_entries, &mut rng, &mut tally)?;
                             }
+                            if t % 8 == 1 {
+                                // sweep: touch every content without waiting for its data, so that clusters are evicted
+                                // from the 40-slot cache while their decoding is still queued or running
+                                let start = rng.usize_below(fx.addrs.len());
+                                for j in 0..fx.addrs.len() {
+                                    let i = (start + j) % fx.addrs.len();
+                                    if fx.expected[i].len() < 1_000_000 {
+                                        continue;
+                                    }
+                                    if let Some(jbk::reader::MayMissPack::FOUND(Some(r))) = container.get_bytes(fx.addrs[i]).map_err(|e| format!("get_bytes: {e}"))? {
+                                        let n = fx.expected[i].len().min(16);
+                                        let s = r.get_slice(jbk::Offset::from(0u64), n).map_err(|e| format!("sweep get_slice: {e}"))?;
+                                        if s.as_ref() != &fx.expected[i][..n] {
+                                            return Err(format!("sweep: head of content {i} differs"));
+                                        }
+                                        tally.inc("op.sweep_touch");
+                                    }
+                                }
+                            }
                             let mut held: Vec<(ByteRegion, usize)> = vec![];
                             for _ in 0..ops {
                                 // a few hot contents shared by all threads, else spread over all clusters
